@@ -224,6 +224,9 @@ def shrink(case):
 
 
 def run(ctx, out, replay=None):
+    # second tie: find_location / area_overlap re-translated from the current source and proved equal to the model
+    from harness.props import c18
+    c18.translation_tie(ctx, out, pid="C06")
     n = 4000 if ctx.quick() else 80000
     out.rule = ("trunk with 1-5 branches on random sides (flush with corners, partial extent), near misses (gap, overhang, "
                 "overlap, perturbation around eps), repeated rectangles, random layouts, degenerate thin rectangles, random "
